@@ -1,6 +1,67 @@
 import PgFdr.Json
+import PgFdr.Model.C20
 namespace PgFdr.Driver
 open Lean PgFdr
+
+namespace C20D
+open PgFdr.C20
+
+def jop (j : Json) : R (Op String) := do
+  let a ← jarr j
+  match a with
+  | [.str "append", g] => pure (.append (← jstrs g))
+  | [.str "extend", gs] => pure (.extend (← jgroups gs))
+  | [.str "index"] => pure .createIndex
+  | [.str "merge", a, b] => pure (.merge (← jstr a) (← jstr b))
+  | [.str "clean"] => pure .removeEmpty
+  | [.str "unseen", o] => pure (.addUnseen (← jgroups o))
+  | [.str "group", p, c] => pure (.getGroup (← jstr p) (← jbool c))
+  | [.str "idx", p, c] => pure (.getIdx (← jstr p) (← jbool c))
+  | [.str "idxs", ps, c] => pure (.getIdxs (← jstrs ps) (← jbool c))
+  | [.str "groups", ps, c] => pure (.getGroups (← jstrs ps) (← jbool c))
+  | [.str "lead", ps] => pure (.getLeading (← jstrs ps))
+  | [.str "missing", ps] => pure (.missing (← jstrs ps))
+  | [.str "shared", ps] => pure (.shared (← jstrs ps))
+  | [.str "missing_groups", ps] => pure (.missingGroups (← jstrs ps))
+  | [.str "shared_groups", ps] => pure (.sharedGroups (← jstrs ps))
+  | [.str "size"] => pure .size
+  | [.str "all"] => pure .allProteins
+  | _ => .error s!"unknown pg operation {j.compress}"
+
+def ofPosGroup (x : Nat × List String) : Json := .arr #[ofNat x.1, ofStrs x.2]
+
+def ofOut : Out String → Json
+  | .unit => .null
+  | .err e => ofErr e.name
+  | .group g => obj [("group", ofStrs g)]
+  | .idx i => obj [("idx", ofNat i)]
+  | .idxs l => obj [("idxs", PgFdr.ofList (fun o => match o with | some i => ofInt i | none => ofInt (-1)) l)]
+  | .groups l => obj [("groups", PgFdr.ofList ofPosGroup l)]
+  | .prots l => obj [("prots", ofStrs l)]
+  | .bool b => obj [("bool", .bool b)]
+  | .nat n => obj [("nat", ofNat n)]
+  | .obsolete l => obj [("obsolete", PgFdr.ofList (fun x => ofPosGroup (x.1, x.2.map (fun p => "OBSOLETE__" ++ p))) l)]
+
+def ofState (pg : PG String) : List (String × Json) :=
+  [("groups", ofGroups pg.groups), ("valid", .bool pg.valid),
+   ("index", PgFdr.ofList (fun x => Json.arr #[.str x.1, ofNat x.2]) (indexItems pg))]
+
+/-- `{"op":"pg","init":[[…]…]?,"from_list":bool?,"ops":[[name,args…]…]}` →
+    `{"steps":[{"out":…,"groups":…,"valid":…,"index":[[p,i]…]}…]}` -/
+def handlePg (j : Json) : R Json := do
+  let ops ← jlist jop (← jget j "ops")
+  let gs ← match jgetOpt j "init" with
+    | some g => jgroups g
+    | none => pure []
+  let fromList ← match jgetOpt j "from_list" with
+    | some b => jbool b
+    | none => pure false
+  let pg0 : PG String := if fromList then C20.ofList gs else { (init : PG String) with groups := gs }
+  let tr := trace pg0 ops
+  pure (obj [("steps", PgFdr.ofList (fun (r : PG String × Out String) => obj (("out", ofOut r.2) :: ofState r.1)) tr)])
+
+end C20D
+
 /-- protocol handlers of property C20: (op name, handler) -/
-def handlersC20 : List (String × (Json → R Json)) := []
+def handlersC20 : List (String × (Json → R Json)) := [("pg", C20D.handlePg)]
 end PgFdr.Driver
